@@ -52,9 +52,9 @@ Proof. unfold stop_of. destruct (rev idx) as [|c ?]; [left; reflexivity|right; a
 
 Lemma step_of_shape f idx : step_of fmtv fmt_diff f idx = VNone \/ exists s, step_of fmtv fmt_diff f idx = VStr s.
 Proof.
-  unfold step_of. destruct idx as [|[a| |] [|[b| |] ?]]; try (left; reflexivity).
-  match goal with |- (if ?c then _ else _) = _ \/ _ => destruct c end;
-    [left; reflexivity|right; eexists; reflexivity].
+  unfold step_of. destruct idx as [|c0 [|c1 ?]]; try (left; reflexivity).
+  match goal with |- (if ?c then _ else _) = _ \/ _ => destruct c end; [left; reflexivity|].
+  destruct c0, c1; cbn [step_text]; try (left; reflexivity); right; eexists; reflexivity.
 Qed.
 
 End Values.
